@@ -104,6 +104,9 @@ ASSUMPTIONS = [
     "represent exactly; get_bright_bc/_perc cast the image to int, a "
     "fractional part of a float image would be truncated - not claimed); "
     "|values| <= 2^40 so that image - background fits 64 bit",
+    "get_bright of a float32 image: numpy's mean/std run in float32, the "
+    "result is compared within 1e-6 of the largest gray value (all other "
+    "dtypes and get_bright_bc/_perc: 1e-9)",
     "principal inertia ratio: contours within 4096 px of the origin "
     "(get_inert_ratio_prnc rotates the uncentred float contour; its "
     "rounding error grows with the fourth power of the distance: 4e-5 at "
@@ -1237,6 +1240,10 @@ def do_bright(ctx, case):
         err = e
         res = None
     run.count("bright:fn%d:%s:%s" % (fn, case["container"], ok))
+    # get_bright applies no cast: numpy computes mean/std of a float32 image
+    # in float32 (documented numpy behaviour); the statistics then carry the
+    # precision of the image dtype.  _bc and _perc cast to int (64 bit).
+    btol = 1e-6 if (fn == 0 and dt == np.float32) else 1e-9
     run.count("bright:dtype:%s/%s" % (dt.name, bdt.name))
     if any(v > 32767 for e in ev for r, mr in zip(e["img"], e["mask"])
            for v, mk in zip(r, mr) if mk):
@@ -1269,7 +1276,7 @@ def do_bright(ctx, case):
                         exact_percentile(vals, 90) - o)
             sc = max(abs(v) for v in vals) + abs(float(o)) + 1
             for j in range(2):
-                if abs(float(want[j]) - got[j]) > 1e-9 * sc:
+                if not abs(float(want[j]) - got[j]) <= btol * sc:
                     ctx.fail(case, "event %d: %s[%d] = %r, the masked "
                              "background-corrected pixels give %r" % (
                                  i, ["get_bright", "get_bright_bc",
@@ -1278,7 +1285,7 @@ def do_bright(ctx, case):
         elif not (math.isnan(got[0]) and math.isnan(got[1])):
             ctx.fail(case, "event %d: empty mask but value %r" % (i, got))
 
-        def chk(model, got=got, fn=fn, vals=vals):
+        def chk(model, got=got, fn=fn, vals=vals, btol=btol):
             if model == [0]:
                 return None if math.isnan(got[0]) else ("bright (model nan)",
                                                         got)
@@ -1286,8 +1293,8 @@ def do_bright(ctx, case):
             b = Fraction(model[3], model[4])
             sc = max([abs(v) for v in vals] + [1.0])
             bb = math.sqrt(b) if fn < 2 else float(b)
-            if abs(float(a) - got[0]) > 1e-9 * sc or \
-                    abs(bb - got[1]) > 1e-9 * sc:
+            if not (abs(float(a) - got[0]) <= btol * sc and
+                    abs(bb - got[1]) <= btol * sc):
                 return "bright fn=%d" % fn, got
             return None
         ctx.add("run_bright", "(%d, %s, %s, %s, %s, %s)" % (
